@@ -506,6 +506,7 @@ func (h *seqTheory) runM(x *Exec, st *State, q, c string) {
 	st.assume(sImp(sNot(sEq(sr, "nilRef")), fmt.Sprintf("(and (>= (alloc %s) %s) (not (= %s nilF)) (= (nres %s) (pd_r %s)) (= (nst %s) (pd_s %s)) (= (Co %s) %s))", sr, st.clk, nf, nf, pend, nf, pend, nf, c)))
 	nclk := x.d.fresh("clk", "Int")
 	st.assume(fmt.Sprintf("(< %s %s)", st.clk, nclk))
+	st.assume(fmt.Sprintf("(< (alloc %s) %s)", sr, nclk))
 	st.clk = nclk
 	tv := x.d.sortOf(x.valueType())
 	x.fieldVer(st, kCoStep, "Ref")
